@@ -203,8 +203,9 @@ deriving DecidableEq, Repr, Inhabited
 
 inductive Op where
   /-- a credential exchange that ended in `CredState::Success(t)` for a login started with
-  `privileged`, on an account whose uuid is (not) `UUID_ANONYMOUS` -/
-  | auth (t : AuthType) (privileged : Bool) (anon : Bool) (pol : Policy)
+  `privileged`, on an account whose uuid is (not) `UUID_ANONYMOUS`; `persist` = the queued
+  `AuthSessionRecord` reaches the database (it is written asynchronously and may be lost) -/
+  | auth (t : AuthType) (privileged : Bool) (anon : Bool) (persist : Bool) (pol : Policy)
   /-- `reauth_init` with the identity of token `tok`, then a credential exchange ending in
   `CredState::Success(t)` -/
   | reauth (tok : Nat) (req : ReauthRequest) (t : AuthType) (pol : Policy)
@@ -220,16 +221,21 @@ def revokeIn (sid : Nat) : List (Nat × Session) → List (Nat × Session)
     if k = sid then (k, { s with state := .revokedAt }) :: revokeIn sid rest
     else (k, s) :: revokeIn sid rest
 
-def stepAuth (w : World) (t : AuthType) (privileged anon : Bool) (pol : Policy) : World × Reply :=
+/-- The delayed `process_authsessionrecord` write, if it happens. -/
+def authSessions (sessions : List (Nat × Session)) (persist : Bool) :
+    Option (Nat × Session) → List (Nat × Session)
+  | some r => if persist then sessions ++ [r] else sessions
+  | none => sessions
+
+def stepAuth (w : World) (t : AuthType) (privileged anon persist : Bool) (pol : Policy) :
+    World × Reply :=
   match issueUat (.initialAuth privileged) t w.now pol w.nextSid anon with
   | .error e => (w, .err e)
   | .ok (uat, rec) =>
     let u := wire uat
     ({ w with
         tokens := w.tokens ++ [u]
-        sessions := match rec with
-          | some r => w.sessions ++ [r]
-          | none => w.sessions
+        sessions := authSessions w.sessions persist rec
         nextSid := w.nextSid + 1
         log := w.log ++ [{ time := w.now, sessionId := w.nextSid, reauth := false, authType := t,
                            flag := privileged, pol := pol, expiry := u.expiry }] },
@@ -268,7 +274,7 @@ def stepReauth (w : World) (tok : Nat) (req : ReauthRequest) (t : AuthType) (pol
                .token u')
 
 def step (w : World) : Op → World × Reply
-  | .auth t p a pol => stepAuth w t p a pol
+  | .auth t p a ps pol => stepAuth w t p a ps pol
   | .reauth tok req t pol => stepReauth w tok req t pol
   | .advance dt => ({ w with now := w.now + dt }, .ok)
   | .use tok =>
